@@ -109,6 +109,8 @@ def run(ctx):
             ('open: content decode (padding check)', 'CiphertextProcessor::open', r'PrivateMessageContent::mls_decode$'),
         ]
     for name, fq, rx in MP:
+        if cfg == 'B' and fq.startswith('ExternalGroup'):
+            continue        # configuration B is built without the external_client feature
         ctx.check('MUST-PASS', name, lambda P_, fq=fq, rx=rx: must_pass(P_, fq, rx), floor=1)
     # ordering / conditional must-pass
     ctx.check('MUST-PASS', 'welcome: all checks before the group is created',
@@ -167,7 +169,7 @@ def run(ctx):
               lambda P_: wire(P_, 'TreeKemPublic::apply_update_path', r'::update_parent_hashes$', 2, r'^const (1|true)$'), floor=1)
     ctx.check('WIRE', 'observer: membership key is None (only check it may skip)',
               lambda P_: wire(P_, 'ExternalGroup as MessageProcessor::verify_plaintext_authentication',
-                              r'message_verifier::verify_plaintext_authentication$', 2, r'Option::None'), floor=1)
+                              r'message_verifier::verify_plaintext_authentication$', 2, r'Option::None'), floor=1, configs=['A', 'C', 'D'])
     ctx.check('WIRE', 'member: membership key is the epoch membership key',
               lambda P_: wire(P_, 'Group as MessageProcessor::verify_plaintext_authentication',
                               r'message_verifier::verify_plaintext_authentication$', 2, r'Option::Some\{0: self\.key_schedule\.membership_key'), floor=1)
@@ -213,7 +215,7 @@ def run(ctx):
     ents = [q for q in ('Group::process_incoming_message', 'Client::join_group', 'ExternalGroup::process_incoming_message',
                         'ExternalClient::observe_group') if P.has_fn(q)]
     ctx.check('ERRSET', 'verification errors reachable from the attack surface',
-              lambda P_: errset(P_, fa_for(P_), ents, [v for v in ERR_VARIANTS if not (cfg == 'B' and v in ('CantProcessMessageFromSelf',))]),
+              lambda P_: errset(P_, fa_for(P_), ents, [v for v in ERR_VARIANTS if not (cfg == 'B' and v in ('CantProcessMessageFromSelf', 'LeafNotFound'))]),
               floor=15)
     for name, (entsf, label) in PANIC_SETS.items():
         ctx.check('PANIC-AUDIT', name, lambda P_, name=name, entsf=entsf, label=label:
